@@ -5,9 +5,11 @@ import fcntl, hashlib, json, os, re, subprocess, sys, time
 VERIF = os.path.dirname(os.path.dirname(os.path.abspath(__file__)))
 REPO = "/repo"
 BUILD = os.path.join(VERIF, "build")
+# (only tools/matrix.py sets these, to evaluate seeded changes on scratch copies in parallel)
+HARNESS_DIR = os.environ.get("VERIF_HARNESS_DIR") or os.path.join(VERIF, "harness")
 COQ = os.path.join(VERIF, "coq")
 EXTRACT = os.path.join(BUILD, "extract")
-TARGET = os.path.join(BUILD, "target")
+TARGET = os.environ.get("VERIF_TARGET_DIR") or os.path.join(BUILD, "target")
 RUN = os.path.join(BUILD, "run")
 REPLAYS = os.path.join(VERIF, "replays")
 NCPU = os.cpu_count() or 4
@@ -117,14 +119,24 @@ def build_driver():
 
 
 def build_harness():
-    """cargo build of the harness against /repo's current working tree, debug and release."""
-    with Lock("cargo"):
-        hd = os.path.join(VERIF, "harness")
+    """cargo build of the harness against /repo's current working tree, debug and release (concurrently)."""
+    import threading
+    with Lock("cargo" + ("-" + str(abs(hash(TARGET)) % 100000) if os.environ.get("VERIF_TARGET_DIR") else "")):
+        hd = HARNESS_DIR
         lock = os.path.join(hd, "Cargo.lock")
         if not os.path.exists(lock):
             sh(["cp", os.path.join(REPO, "Cargo.lock"), lock])
-        for prof in ([], ["--release"]):
-            rc, out = sh(["timeout", "1500", "cargo", "build", "--offline"] + prof, cwd=hd, timeout=1600)
+        res = {}
+
+        def one(prof):
+            res[tuple(prof)] = sh(["timeout", "1500", "cargo", "build", "--offline", "--target-dir", TARGET] + prof, cwd=hd, timeout=1600)
+
+        ths = [threading.Thread(target=one, args=(prof,)) for prof in ([], ["--release"])]
+        for t in ths:
+            t.start()
+        for t in ths:
+            t.join()
+        for prof, (rc, out) in res.items():
             if rc != 0:
                 raise BuildError("cargo build " + " ".join(prof), out)
 
